@@ -783,3 +783,27 @@ def boot_size_each_rule(rep, F):
                         ok = True
     if not ok:
         rep.violation("BOOT-size-each", "WitnessesCalculator::add_boostrap", "add_boostrap does not price its own address on every call (get_boostrap_witness_size(address) is %s): with an Icarus address first and Daedalus-style addresses after it the predicted size is ~34 bytes short per witness and create_send_all returns transactions above max_tx_size" % ("conditional or not applied to the argument" if cs else "not called directly - deferred into a closure or cache"), {})
+
+
+def datum_id_rule(rep, F):
+    """identity of a datum in every de-duplication = value + the bytes it is written with"""
+    # DATUM-id: the ordered-set de-duplication is only right because PlutusData's Ord tells different encodings apart
+    rep.rule("DATUM-id", "PlutusData's Ord (the relation every datum de-duplication uses) identifies a datum by its value and the bytes it is written with (preserved original bytes, else the canonical encoding - compared through to_bytes): different encodings stay apart (different hashes), identical bytes are one element")
+    pd = [a for a in F.adts if a.endswith("plutus_data::PlutusData")]
+    if len(pd) != 1:
+        rep.lost("PlutusData not found")
+    else:
+        rep.inst("DATUM-id")
+        om = [im for im in F.impls if (im.get("trait") or "").startswith("std::cmp::Ord") and (im.get("self_adt") or im["self_ty"]) == pd[0]]
+        if not om:
+            rep.violation("DATUM-id", "PlutusData|no-ord", "PlutusData has no Ord impl any more", {})
+        elif om[0].get("derive"):
+            rep.violation("DATUM-id", "PlutusData|derived-ord", "PlutusData's Ord is derived: it compares the Option field original_bytes structurally, so a datum decoded from bytes (Some(canonical bytes)) and the same datum built through the API (None) are different set elements although they are written with identical bytes - the witness set the builder emits then holds the datum twice (`9f 18 2a 18 2a ff`), which a set-typed field must not", {})
+        elif not om[0].get("derive"):
+            mid = [m["id"] for m in om[0]["methods"] if m["name"] == "cmp"]
+            rd = {f for (a, f) in fields_read(F, mid[0], depth=2) if a == pd[0]} if mid and mid[0] in F.fns else set()
+            mid_calls = [c.to or "" for c in F.calls(mid[0])] + [c.to or "" for sub in F.fns if sub.startswith(mid[0] + "::{closure") for c in F.calls(sub)] if mid and mid[0] in F.fns else []
+            if "original_bytes" in rd and "datum" in rd and not any(x.endswith("PlutusData::to_bytes") or x.endswith("PlutusData as cbor_event::Serialize>::serialize") for x in mid_calls):
+                rep.violation("DATUM-id", "PlutusData|ord-not-on-bytes", "PlutusData's hand-written Ord reads original_bytes but never compares the bytes the two datums are written with (to_bytes): Some(canonical bytes) and None would still be told apart", {})
+            if "original_bytes" not in rd or "datum" not in rd:
+                rep.violation("DATUM-id", "PlutusData|ord-basis|%s" % ",".join(sorted(rd)), "PlutusData's hand-written Ord compares %s only: two datums with equal value but different preserved bytes (different hashes, both required by their inputs) collapse to one in every witness-set de-duplication" % sorted(rd), {})
